@@ -80,34 +80,28 @@ func (p *parser) parse() (e *expr.Expression, err error) {
 		}
 
 		if p.shouldShift(next) {
+			// two operands written next to each other are joined by an implicit AND. Act as if
+			// we just saw an AND: finish everything that binds tighter than an AND first and
+			// then push the AND before the token that starts the next operand.
+			if startsOperand(next) && p.endsOperand() {
+				implAnd := lex.Token{Typ: lex.TAnd, Val: "AND"}
+				for !p.shouldShift(implAnd) {
+					err = p.reduce()
+					if err != nil {
+						return e, err
+					}
+				}
+
+				p.stack = append(p.stack, implAnd)
+				p.nonTerminals = append(p.nonTerminals, implAnd)
+			}
+
 			tok := p.shift()
 			if lex.IsTerminal(tok) {
 				// if we have a terminal parse it and put it on the stack
 				lit, err := parseLiteral(tok)
 				if err != nil {
 					return e, err
-				}
-
-				// we should always check if the current top of the stack is another token
-				// if it isn't then we have an implicit AND we need to inject.
-				if len(p.stack) > 0 {
-					_, isTopToken := p.stack[len(p.stack)-1].(lex.Token)
-					if !isTopToken {
-						implAnd := lex.Token{Typ: lex.TAnd, Val: "AND"}
-						// act as if we just saw an AND and check if we need to reduce the
-						// current token stack first.
-						if !p.shouldShift(implAnd) {
-							err = p.reduce()
-							if err != nil {
-								return e, err
-							}
-						}
-
-						// if we have a literal as the previous parsed thing then
-						// we must be in an implicit AND and should reduce
-						p.stack = append(p.stack, implAnd)
-						p.nonTerminals = append(p.nonTerminals, implAnd)
-					}
 				}
 
 				p.stack = append(p.stack, lit)
@@ -167,6 +161,32 @@ func (p *parser) shouldShift(next lex.Token) bool {
 
 	// shift if our current token has less precedence than the next token
 	return lex.HasLessPrecedence(curr, next)
+}
+
+// startsOperand checks whether a token can be the first token of an operand.
+func startsOperand(next lex.Token) bool {
+	return next.Typ == lex.TLiteral ||
+		next.Typ == lex.TQuoted ||
+		next.Typ == lex.TRegexp ||
+		next.Typ == lex.TLParen ||
+		next.Typ == lex.TPlus ||
+		next.Typ == lex.TMinus ||
+		next.Typ == lex.TNot
+}
+
+// endsOperand checks whether the top of the stack is a complete operand: a parsed
+// expression or the closing bracket of a group or range.
+func (p *parser) endsOperand() bool {
+	if len(p.stack) == 0 {
+		return false
+	}
+
+	tok, isToken := p.stack[len(p.stack)-1].(lex.Token)
+	if !isToken {
+		return true
+	}
+
+	return anyClosingBracket(tok)
 }
 
 func anyOpenBracket(curr, next lex.Token) bool {
